@@ -89,6 +89,10 @@ func hasCustomFunc(customFunc *config.Func, t object.ObjectType, funcName string
 	}
 }
 
+// maxBuiltStringLen is the longest string a built-in function builds from a
+// count given in the template (repeat, decimal); larger requests are errors
+const maxBuiltStringLen = 1 << 26
+
 func addDecimals(receiver object.Object, objType object.ObjectType, args ...object.Object) (object.Object, error) {
 	var val string
 
@@ -126,6 +130,11 @@ func addDecimals(receiver object.Object, objType object.ObjectType, args ...obje
 
 		if !ok {
 			msg := fmt.Sprintf(fail.ErrFuncSecondArgInt, "decimal", objType)
+			return nil, errors.New(msg)
+		}
+
+		if decimalArg.Value > maxBuiltStringLen {
+			msg := fmt.Sprintf(fail.ErrFuncResultTooLong, "decimal", objType, maxBuiltStringLen)
 			return nil, errors.New(msg)
 		}
 
